@@ -10,6 +10,7 @@ mod explore;
 mod monitors;
 mod hooks;
 mod mpcrun;
+mod replay;
 mod schema;
 mod shard;
 mod srv;
@@ -35,6 +36,11 @@ fn main() {
     // panics inside party polls are caught and reported as outcomes; keep stderr quiet about them
     if std::env::var("PVX_PANIC_TRACE").is_err() {
         std::panic::set_hook(Box::new(|_| {}));
+    }
+    if args[1] == "replay" {
+        let c = replay::main(args.get(2).map(|s| s.as_str()).unwrap_or(""));
+        mpcrun::cleanup_tmp_root();
+        std::process::exit(c);
     }
     let code = std::panic::catch_unwind(|| checks::dispatch(&args[1], tier, seed, &args[2..]));
     mpcrun::cleanup_tmp_root();
